@@ -140,6 +140,7 @@ func c09Alphabet() []clOp {
 		{Op: "clean", BytesCut: -1, MsgsCut: -1, AgeCut: 1, AgeD: 1, Msgs: []clMsgSpec{mk(100)}},
 		// all three limits, and the extremes
 		c09Clean(2, 0, 1, 1, 0, 0),
+		{Op: "clean", BytesCut: -1, MsgsCut: 1, MsgsD: 0, AgeCut: -1, Fault: 2}, // an earlier cycle could not delete the second segment
 		c09Clean(0, 2, -1, 0, -1, 0), // tiny byte limit: everything but the newest segment goes
 		c09Clean(-1, 0, -1, 0, 0, 3), // everything expired
 	}
